@@ -979,7 +979,30 @@ pub trait ErasedVal {
     fn into_io_writer(&self, cap: usize, chunk: usize) -> SinkOut;
 }
 
-pub struct V<T>(pub T);
+macro_rules! cursor_arrays {
+    ($self:ident, $cap:ident, $($n:literal)*) => {
+        match $cap {
+            $( $n => {
+                let mut c = Cursor::new([0xa5u8; $n]);
+                let res = minicbor::encode($self, &mut c).map_err(|e| enc_class(&e));
+                let pos = c.position();
+                Some(SinkOut { canary_ok: true, res, buf: c.into_inner().to_vec(), pos })
+            } )*
+            _ => None
+        }
+    };
+}
+
+pub struct V<T> {
+    pub v: T,
+    /// `Cursor<[u8; N]>` encoders for N in 0..=41, instantiated only for selected types
+    pub arr: Option<fn(&T, usize) -> Option<SinkOut>>,
+}
+
+/// Encode into `Cursor<[u8; N]>` for the capacity `cap` (0..=41).
+pub fn arr_fn<T: Encode<()>>(v: &T, cap: usize) -> Option<SinkOut> {
+    cursor_arrays!(v, cap, 0 1 2 3 4 5 6 7 8 9 10 11 12 13 14 15 16 17 18 19 20 21 22 23 24 25 26 27 28 29 30 31 32 33 34 35 36 37 38 39 40 41)
+}
 
 pub struct LimitedIo {
     pub buf: Vec<u8>,
@@ -1002,36 +1025,22 @@ impl std::io::Write for LimitedIo {
     }
 }
 
-macro_rules! cursor_arrays {
-    ($self:ident, $cap:ident, $($n:literal)*) => {
-        match $cap {
-            $( $n => {
-                let mut c = Cursor::new([0xa5u8; $n]);
-                let res = minicbor::encode(&$self.0, &mut c).map_err(|e| enc_class(&e));
-                let pos = c.position();
-                Some(SinkOut { canary_ok: true, res, buf: c.into_inner().to_vec(), pos })
-            } )*
-            _ => None
-        }
-    };
-}
-
 impl<T> ErasedVal for V<T>
 where
     T: Encode<()> + CborLen<()> + for<'b> Decode<'b, ()> + ToModel,
 {
     fn model(&self) -> Item {
-        self.0.to_model()
+        self.v.to_model()
     }
     fn debug(&self) -> String {
-        let s = self.0.to_model().diag();
+        let s = self.v.to_model().diag();
         s.chars().take(160).collect()
     }
     fn to_vec(&self) -> Result<Vec<u8>, EncErr> {
-        minicbor::to_vec(&self.0).map_err(|e| enc_class(&e))
+        minicbor::to_vec(&self.v).map_err(|e| enc_class(&e))
     }
     fn cbor_len(&self) -> usize {
-        minicbor::len(&self.0)
+        minicbor::len(&self.v)
     }
     fn decode_back(&self, bytes: &[u8]) -> DecOut {
         decode_as::<T>(bytes, 0)
@@ -1041,7 +1050,7 @@ where
         mem[16..16 + cap].fill(0xa5);
         let (res, rem) = {
             let mut s: &mut [u8] = &mut mem[16..16 + cap];
-            let r = minicbor::encode(&self.0, &mut s).map_err(|e| enc_class(&e));
+            let r = minicbor::encode(&self.v, &mut s).map_err(|e| enc_class(&e));
             (r, s.len())
         };
         let canary_ok = mem[..16].iter().chain(&mem[16 + cap..]).all(|b| *b == 0x5a);
@@ -1052,7 +1061,7 @@ where
         mem[16..16 + cap].fill(0xa5);
         let (res, pos) = {
             let mut c = Cursor::new(&mut mem[16..16 + cap]);
-            let r = minicbor::encode(&self.0, &mut c).map_err(|e| enc_class(&e));
+            let r = minicbor::encode(&self.v, &mut c).map_err(|e| enc_class(&e));
             (r, c.position())
         };
         let canary_ok = mem[..16].iter().chain(&mem[16 + cap..]).all(|b| *b == 0x5a);
@@ -1060,16 +1069,16 @@ where
     }
     fn into_cursor_box(&self, cap: usize) -> SinkOut {
         let mut c = Cursor::new(vec![0xa5u8; cap].into_boxed_slice());
-        let res = minicbor::encode(&self.0, &mut c).map_err(|e| enc_class(&e));
+        let res = minicbor::encode(&self.v, &mut c).map_err(|e| enc_class(&e));
         let pos = c.position();
         SinkOut { canary_ok: true, res, buf: c.into_inner().into_vec(), pos }
     }
     fn into_cursor_array(&self, cap: usize) -> Option<SinkOut> {
-        cursor_arrays!(self, cap, 0 1 2 3 4 5 6 7 8 9 10 11 12 13 14 15 16 17 18 19 20 21 22 23 24 25 26 27 28 29 30 31 32 33 34 35 36 37 38 39 40 41)
+        self.arr.and_then(|f| f(&self.v, cap))
     }
     fn into_io_writer(&self, cap: usize, chunk: usize) -> SinkOut {
         let mut w = minicbor::encode::write::Writer::new(LimitedIo { buf: Vec::new(), cap, chunk });
-        let res = minicbor::encode(&self.0, &mut w).map_err(|e| enc_class(&e));
+        let res = minicbor::encode(&self.v, &mut w).map_err(|e| enc_class(&e));
         let io = w.into_inner();
         let pos = io.buf.len();
         SinkOut { canary_ok: true, res, buf: io.buf, pos }
@@ -1207,7 +1216,15 @@ fn vals<T>() -> Vec<Box<dyn ErasedVal>>
 where
     T: Ty + Encode<()> + CborLen<()> + for<'b> Decode<'b, ()> + ToModel + 'static,
 {
-    T::small().into_iter().map(|v| Box::new(V(v)) as Box<dyn ErasedVal>).collect()
+    T::small().into_iter().map(|v| Box::new(V { v, arr: None }) as Box<dyn ErasedVal>).collect()
+}
+
+/// like `vals`, with the fixed-array cursors instantiated
+fn vals_arr<T>() -> Vec<Box<dyn ErasedVal>>
+where
+    T: Ty + Encode<()> + CborLen<()> + for<'b> Decode<'b, ()> + ToModel + 'static,
+{
+    T::small().into_iter().map(|v| Box::new(V { v, arr: Some(arr_fn::<T>) }) as Box<dyn ErasedVal>).collect()
 }
 
 fn leak<T: ?Sized>(b: Box<T>) -> &'static T {
@@ -1242,19 +1259,23 @@ pub fn type_table() -> Vec<TypeEntry> {
     let mut v: Vec<TypeEntry> = Vec::new();
     entry!(v, "bool", bool);
     entry!(v, "u8", u8);
+    v.last_mut().unwrap().values = vals_arr::<u8>;
     entry!(v, "u16", u16);
     entry!(v, "u32", u32);
     entry!(v, "u64", u64);
+    v.last_mut().unwrap().values = vals_arr::<u64>;
     entry!(v, "usize", usize);
     entry!(v, "i8", i8);
     entry!(v, "i16", i16);
     entry!(v, "i32", i32);
+    v.last_mut().unwrap().values = vals_arr::<i32>;
     entry!(v, "i64", i64);
     entry!(v, "isize", isize);
     entry!(v, "f32", f32);
     entry!(v, "f64", f64);
     entry!(v, "char", char);
     entry!(v, "String", String);
+    v.last_mut().unwrap().values = vals_arr::<String>;
     entry!(v, "Box<str>", Box<str>);
     entry!(v, "Cow<str>", std::borrow::Cow<'static, str>);
     entry!(v, "CString", std::ffi::CString);
@@ -1264,6 +1285,7 @@ pub fn type_table() -> Vec<TypeEntry> {
     entry!(v, "ByteArray<16>", ByteArray<16>);
     entry!(v, "ByteArray<24>", ByteArray<24>);
     entry!(v, "Option<u8>", Option<u8>);
+    v.last_mut().unwrap().values = vals_arr::<Option<u8>>;
     entry!(v, "Option<String>", Option<String>);
     entry!(v, "Option<()>", Option<()>);
     entry!(v, "Option<Vec<u8>>", Option<Vec<u8>>);
@@ -1276,6 +1298,7 @@ pub fn type_table() -> Vec<TypeEntry> {
     entry!(v, "(u8,)", (u8,));
     entry!(v, "(u8,i8)", (u8, i8));
     entry!(v, "(u8,String,bool)", (u8, String, bool));
+    v.last_mut().unwrap().values = vals_arr::<(u8, String, bool)>;
     entry!(v, "(u8,u8,u8,u8)", (u8, u8, u8, u8));
     entry!(v, "tuple5", (bool, u8, i8, bool, u8));
     entry!(v, "tuple6", (bool, u8, i8, bool, u8, i8));
@@ -1292,10 +1315,12 @@ pub fn type_table() -> Vec<TypeEntry> {
     entry!(v, "[u8;0]", [u8; 0]);
     entry!(v, "[u8;1]", [u8; 1]);
     entry!(v, "[u8;3]", [u8; 3]);
+    v.last_mut().unwrap().values = vals_arr::<[u8; 3]>;
     entry!(v, "[u8;24]", [u8; 24]);
     entry!(v, "[String;3]", [String; 3], 24);
     entry!(v, "[Option<u8>;3]", [Option<u8>; 3]);
     entry!(v, "Vec<u8>", Vec<u8>);
+    v.last_mut().unwrap().values = vals_arr::<Vec<u8>>;
     entry!(v, "Vec<String>", Vec<String>, 24);
     entry!(v, "Vec<Option<Vec<u8>>>", Vec<Option<Vec<u8>>>, 24);
     entry!(v, "VecDeque<u16>", VecDeque<u16>);
@@ -1305,6 +1330,7 @@ pub fn type_table() -> Vec<TypeEntry> {
     entry!(v, "HashSet<u8>", HashSet<u8>, 24);
     entry!(v, "HashSet<String,Fixed>", HashSet<String, FixedHasher>, 48);
     entry!(v, "BTreeMap<u8,bool>", BTreeMap<u8, bool>, 24);
+    v.last_mut().unwrap().values = vals_arr::<BTreeMap<u8, bool>>;
     entry!(v, "BTreeMap<String,(u8,Option<i64>)>", BTreeMap<String, (u8, Option<i64>)>, 64);
     entry!(v, "HashMap<u8,String>", HashMap<u8, String>, 64);
     entry!(v, "HashMap<i8,u8,Fixed>", HashMap<i8, u8, FixedHasher>, 24);
@@ -1316,6 +1342,7 @@ pub fn type_table() -> Vec<TypeEntry> {
     entry!(v, "Bound<u8>", Bound<u8>);
     entry!(v, "Bound<String>", Bound<String>);
     entry!(v, "Duration", std::time::Duration);
+    v.last_mut().unwrap().values = vals_arr::<std::time::Duration>;
     entry!(v, "SystemTime", std::time::SystemTime);
     entry!(v, "Ipv4Addr", std::net::Ipv4Addr);
     entry!(v, "Ipv6Addr", std::net::Ipv6Addr);
@@ -1350,8 +1377,10 @@ pub fn type_table() -> Vec<TypeEntry> {
     entry!(v, "AtomicI64", AtomicI64);
     entry!(v, "AtomicIsize", AtomicIsize);
     entry!(v, "Int", Int);
+    v.last_mut().unwrap().values = vals_arr::<Int>;
     entry!(v, "Tagged<0,u8>", Tagged<0, u8>);
     entry!(v, "Tagged<24,String>", Tagged<24, String>);
+    v.last_mut().unwrap().values = vals_arr::<Tagged<24, String>>;
     entry!(v, "Tagged<4294967296,i8>", Tagged<4294967296, i8>);
     entry!(v, "Tagged<1,Vec<Tagged<2,u8>>>", Tagged<1, Vec<Tagged<2, u8>>>);
     // borrowed types
